@@ -34,8 +34,8 @@ def bounds(tier):
 
 def cases(tier):
     if tier == "thorough":
-        return gen.corpus(tier, depth=3)
-    return gen.corpus(tier, depth=2)
+        return gen.spines() + gen.corpus(tier, depth=3)
+    return gen.spines() + gen.corpus(tier, depth=2)
 
 
 def describe(case):
